@@ -35,6 +35,13 @@ def run(ctx):
     ctx.floor("A5", 2)
     ctx.floor("R6", 1)
     ctx.floor("R7", 1)
+    # a specification check between two packets must not leave entries behind for classes without rules
+    LK.k4_key_normal_form(ctx, LK.Kinds(ctx.P))
+    ctx.floor("K4", 9)
+    # packs (held by the queue, compared by content) hold strategies and factories: value hash goes with value equality
+    from ..engines import dispatch as DP
+    DP.d3_hash_implies_eq(ctx)
+    ctx.floor("D3", 2)
     ctx.floor("K5", 6)
     ctx.floor("K18", 6)
     ctx.floor("K6", 2)
@@ -42,3 +49,6 @@ def run(ctx):
     ctx.floor("R2", 13)
     ctx.floor("R3", 4)
     ctx.floor("R5", 3)
+    from ..engines import statepickle as RR
+    RR.r8_one_shot_iterables_not_kept(ctx)
+    ctx.floor("R8", 1)
